@@ -3,4 +3,4 @@
 Require Import Coq.extraction.Extraction Coq.extraction.ExtrOcamlBasic Coq.extraction.ExtrOcamlString.
 Require Import Grits.Base Grits.Expand Grits.Dump Grits.Tc Grits.TcTop Grits.Runtime Grits.RuntimeFootprint.
 Extraction Language OCaml.
-Extraction "model_compat.ml" parse_string typecheck init_config exec_check bad_pairs.
+Extraction "model_compat.ml" parse_string typecheck init_config exec_check bad_pairs fj_cfg_b fj_funs_b.
